@@ -1012,9 +1012,12 @@ class IMAPUserServer:
                     "Done waiting for mailbox '%s', took: %.3fs", name, duration
                 )
 
-            # Once the wait completes we are guaranteed that
-            # `self.active_mailboxes` has the key `name` in it.
+            # Once the wait completes `self.active_mailboxes` has the key
+            # `name` in it.. unless the task that was instantiating the
+            # mailbox failed to do so.
             #
+            if name not in self.active_mailboxes:
+                raise NoSuchMailbox(f"No such mailbox: '{name}'")
             if self.active_mailboxes[name].deleted:
                 raise NoSuchMailbox(f"'{name}' has been deleted.")
             return self.active_mailboxes[name]
@@ -1023,10 +1026,25 @@ class IMAPUserServer:
         # Instantiate the mailbox. Add it to `active_mailboxes`, signal any
         # other task waiting on the event that it can now get the mailbox.
         #
-        mbox = await Mailbox.new(
-            name,
-            self,
-        )
+        try:
+            mbox = await Mailbox.new(
+                name,
+                self,
+            )
+        except BaseException as exc:
+            # We did not get our mailbox. Do not leave the marker behind that
+            # says it is being instantiated: everyone asking for this mailbox
+            # from now on would wait for it for ever. (No `await` between
+            # these statements, so we do not need the lock.)
+            #
+            self.activating_mailboxes.pop(name, None)
+            event.set()
+
+            # The folder can be deleted or renamed while we are reading it.
+            #
+            if isinstance(exc, (NoSuchMailboxError, FileNotFoundError)):
+                raise NoSuchMailbox(f"No such mailbox: '{name}'") from exc
+            raise
         async with self.active_mailboxes_lock:
             self.active_mailboxes[name] = mbox
 
